@@ -128,7 +128,8 @@ pub fn generate(seed: u64) -> Sc {
                 }
                 5 => {
                     row.cur = Some("CAD".into());
-                    row.fx = Some(explicit.clone());
+                    // any rate other than 1 is refused - including the ones that round to 1
+                    row.fx = Some(if r.chance(1, 2) { explicit.clone() } else { (*r.pick(&["1.04", "0.97", "1.0001", "0.9999", "1.049"])).to_string() });
                 }
                 6 => row.cur = Some("EUR".into()),
                 7 => {
@@ -151,8 +152,11 @@ pub fn generate(seed: u64) -> Sc {
             if row.roc {
                 row.sell = false;
             }
+            // explicit zeros are amounts like any other: they do not excuse a missing rate
+            row.zero_price = !row.roc && r.chance(1, 12);
             if !row.roc && r.chance(1, 2) {
                 row.commission = true;
+                row.zero_commission = r.chance(1, 6);
                 match r.weighted(&[4, 2, 2, 1, 1, 1]) {
                     0 => {}
                     1 => row.ccur = Some("USD".into()),
@@ -163,7 +167,7 @@ pub fn generate(seed: u64) -> Sc {
                     3 => row.ccur = Some("CAD".into()),
                     4 => {
                         row.ccur = Some("CAD".into());
-                        row.cfx = Some(format!("1.{:04}", r.range(1000, 4999)));
+                        row.cfx = Some(if r.chance(1, 2) { format!("1.{:04}", r.range(1000, 4999)) } else { (*r.pick(&["1.04", "0.97", "1.0001"])).to_string() });
                     }
                     _ => row.ccur = Some("GBP".into()),
                 }
@@ -587,6 +591,9 @@ impl Engine for C12 {
             if sc.date_fmt != 0 {
                 st.bump("probe.app_runs_with_date_fmt_option");
             }
+            if rows.iter().any(|r| r.zero_price || (r.commission && r.zero_commission)) {
+                st.bump("probe.app_rows_with_an_explicit_zero_amount");
+            }
             if rows.iter().any(|r| r.roc && r.fx.is_none() && r.cur.as_ref().map(|c| c.trim().to_uppercase() == "USD").unwrap_or(false)) {
                 st.bump("probe.app_return_of_capital_in_usd_without_rate");
             }
@@ -689,7 +696,7 @@ impl Engine for C12 {
                     st.bump("probe.console_run_printed_tables");
                     for (i, row) in rows.iter().enumerate() {
                         let is_usd_lookup = row.cur.as_ref().map(|c| c.trim().to_uppercase() == "USD").unwrap_or(false) && row.fx.is_none();
-                        if !is_usd_lookup || malformed_cfg || row.roc {
+                        if !is_usd_lookup || malformed_cfg || row.roc || row.zero_price {
                             continue;
                         }
                         if let Ok(((_, tr), _)) = &expected[i] {
@@ -708,7 +715,7 @@ impl Engine for C12 {
                                 push(Violation { kind: "console_wrong_amount".into(), signature: "Amt/Share cell of a USD row not computed with the expected rate".into(), detail: format!("today {} published_today {} rows:\n{}row {}: expected an Amt/Share cell {} (10.00 USD x {}), not found on stdout", today, pt, app_csv(rows), i, cell2, tr) }, &mut violations);
                             }
                             // Commission: 1.00 in the commission currency x its rate
-                            if row.commission {
+                            if row.commission && !row.zero_commission {
                                 if let Ok((_, (_, cr))) = &expected[i] {
                                     let comm = (*cr).round_dp_with_strategy(2, rust_decimal::RoundingStrategy::MidpointAwayFromZero);
                                     let cell3 = format!("{:.2}", comm);
@@ -1007,6 +1014,7 @@ impl Engine for C12 {
             "probe.app_rows_over_several_files",
             "probe.app_sell_rows",
             "probe.app_runs_with_date_fmt_option",
+            "probe.app_rows_with_an_explicit_zero_amount",
             "probe.calendar_around_par_noon_below_1_daily_above_1",
             "probe.date_in_a_year_without_any_publication",
             "probe.today_from_system_clock_west_of_utc",
